@@ -94,10 +94,14 @@ class Clock:
 CLOCK = Clock()
 
 
+WATCHDOG = {"fired": False}
+
+
 @contextlib.contextmanager
 def wall_watchdog(seconds):
     """Generous wall-clock guard for one case; firing is 'stall' (inconclusive), never a verdict."""
     def handler(_sig, _frm):
+        WATCHDOG["fired"] = True
         raise WallClockStall()
     old = signal.signal(signal.SIGALRM, handler)
     signal.setitimer(signal.ITIMER_REAL, seconds)
@@ -219,6 +223,7 @@ def assemble(files, charset="bk", budget=None, wall=60.0, handler=None, reset=Tr
         if quiet:
             stack.enter_context(contextlib.redirect_stdout(sink))
             stack.enter_context(contextlib.redirect_stderr(sink))
+        WATCHDOG["fired"] = False
         stack.enter_context(wall_watchdog(wall))
         clock = stack.enter_context(CLOCK.running(budget)) if budget is not None else None
         comp = None
@@ -250,6 +255,9 @@ def assemble(files, charset="bk", budget=None, wall=60.0, handler=None, reset=Tr
         finally:
             if clock is not None:
                 out.steps = clock.count
+    if WATCHDOG["fired"]:
+        # the asynchronous watchdog exception can surface as anything while unwinding: never a verdict
+        out.cls, out.exc_type, out.exc = "stall", None, None
     if isinstance(rec, Recorder):
         out.events = rec.events
     if comp is not None:
